@@ -169,13 +169,17 @@ Fixpoint lex_all_fuel (fuel : nat) (d : bytes) : option (list btoken) :=
   end.
 Definition lex_all (d : bytes) : option (list btoken) := lex_all_fuel (S (length d)) d.
 
-(* "the buffer can hold the token that starts here": either the slice lexer itself runs out of
-   data at this point, or the first [cap] bytes are enough for read_token to decide (a token or
-   InvalidRgb).  [fits cap d]: this holds at every token start the slice lexer visits. *)
+(* "the buffer can hold what starts here": where the slice lexer answers with a token or
+   InvalidRgb, the first [cap] bytes are enough for read_token to give that answer; where the
+   slice lexer runs out of data (clean end or truncated token), all the remaining bytes fit in
+   the buffer with room to spare (a reader cannot know that the stream has ended while its buffer
+   is full: buffer.rs answers BufferFull).  [fits cap d]: this holds at every token start the
+   slice lexer visits.  fits cap d = true implies 0 < cap. *)
 Definition is_eof {A} (o : outcome A) : bool :=
   match o with Err e => (e =? E_LexEof)%N | _ => false end.
 Definition tok_fits (cap : nat) (d : bytes) : bool :=
-  is_eof (read_token d) || negb (is_eof (read_token (firstn cap d))).
+  if is_eof (read_token d) then Nat.ltb (length d) cap
+  else negb (is_eof (read_token (firstn cap d))).
 Fixpoint fits_fuel (fuel cap : nat) (d : bytes) : bool :=
   match fuel with
   | O => true
